@@ -1,6 +1,6 @@
 #!/bin/sh
 # usage (inside `vp run --with-repo -- ./tools/seeded_matrix_snap.sh <ID>...`): runs every kept seeded change of the
-# given properties against the quick tier of its check, on the run's own snapshots of /verif and /repo (so /repo itself
+# given properties (only those numbered >= $MINK when that variable is set) against the quick tier of its check, on the run's own snapshots of /verif and /repo (so /repo itself
 # stays untouched). One line per change: "<name> :: CHECK <ID> exit=<rc> ... keys: ..."
 DIR=$(cd "$(dirname "$0")/.." && pwd)
 [ -n "$VP_RUN_REPO" ] || { echo "needs a --with-repo run"; exit 2; }
@@ -9,6 +9,7 @@ mkdir -p $DIR/.scratch
 for ID in "$@"; do
   for D in $DIR/seeded/$ID-*/; do
     N=$(basename $D)
+    K=${N##*-}; [ -n "$MINK" ] && [ "$K" -lt "$MINK" ] && continue
     git -C $VP_RUN_REPO apply $D/patch.diff 2>/dev/null || { echo "$N :: patch does not apply"; continue; }
     $DIR/check.sh $ID quick >$DIR/.scratch/m.$N.log 2>&1; RC=$?
     echo "$N :: CHECK $ID exit=$RC $(grep -c '^VIOLATION' $DIR/.scratch/m.$N.log) violation lines; keys: $(grep -o 'key=[^ ]*' $DIR/.scratch/m.$N.log | sort | uniq -c | head -6 | tr '\n' ';')"
